@@ -311,7 +311,7 @@ class Builder:
 
     def build_loop(self, sexpression, context, gate_context):
         count, block = sexpression.args
-        built_count = self.build(count, context, gate_context)
+        built_count = check_count(self.build(count, context, gate_context), "Loop")
         built_block = self.build(block, context, gate_context)
         return LoopStatement(built_count, built_block)
 
@@ -343,6 +343,8 @@ class Builder:
                 built_count = 1
             else:
                 built_count = self.build(count, context, gate_context)
+                if built_count is not None:
+                    built_count = check_count(built_count, "Subcircuit")
         return BlockStatement(
             statements=statements, subcircuit=True, iterations=built_count
         )
@@ -535,6 +537,15 @@ class GateMemoizer:
             return tuple(cls._make_hashable(v) for v in obj)
         else:
             return obj
+
+
+def check_count(value, what):
+    """Return a loop or subcircuit count as an integer (or something standing
+    for one), or raise a JaqalError."""
+    value = as_integer(value)
+    if isinstance(value, bool) or not isinstance(value, (int, Constant, Parameter)):
+        raise JaqalError(f"{what} count {value} is not an integer")
+    return value
 
 
 def check_map_index(name, value):
